@@ -1158,6 +1158,14 @@ def pk_writers(ctx, rule='PKW'):
     run.rule(rule, 'WHO-MAY-WRITE(primaryKey): a store into / deletion of the key `primaryKey` of a schema occurs only in %s'
              % ', '.join(sorted(m.rsplit('.', 1)[-1] for m in _PK_WRITERS)))
     n = 0
+    from sa.normalize import module_literals
+
+    def _key(e, m):
+        c = _const(e)
+        if c is None and isinstance(e, ast.Name):
+            lit = module_literals(m).get(e.id)          # (the key given a name at module level)
+            c = lit.value if isinstance(lit, ast.Constant) else None
+        return c
     for m in sorted(repo.modules.values(), key=lambda m: m.name):
         if not m.name.startswith('dataflows.'):
             continue
@@ -1169,9 +1177,9 @@ def pk_writers(ctx, rule='PKW'):
                 tg = [nd.target]
             elif isinstance(nd, ast.Delete):
                 tg = nd.targets
-            hit = [t for t in tg if isinstance(t, ast.Subscript) and _const(t.slice) == 'primaryKey']
+            hit = [t for t in tg if isinstance(t, ast.Subscript) and _key(t.slice, m) == 'primaryKey']
             if isinstance(nd, ast.Call) and isinstance(nd.func, ast.Attribute) and nd.func.attr in ('pop', 'setdefault', 'update') and \
-                    ((nd.args and _const(nd.args[0]) == 'primaryKey') or any(k.arg == 'primaryKey' for k in nd.keywords)):
+                    ((nd.args and _key(nd.args[0], m) == 'primaryKey') or any(k.arg == 'primaryKey' for k in nd.keywords)):
                 hit = [nd]
             for t in hit:
                 n += 1
